@@ -127,6 +127,9 @@ class AsmWorld(World):
     @classmethod
     def gen_config(cls, rng, tier, faults):
         lib = meshlib.library()
+        if rng.random() < (0.0006 if tier == "quick" else 0.002):
+            # a system whose linear index row * Ndof + col needs more than 32 bits (see engines/asm_large.py)
+            return {"actor": "large", "n": int(rng.integers(216, 232)), "k": float(np.round(10 ** rng.uniform(-1, 1), 4)), "c": float(np.round(rng.uniform(0.5, 3), 3)), "nops": 3, "faults": False}
         actor = ["mixed", "mixed", "Thermal", "Elastic", "PhaseField"][int(rng.integers(5))]
         dim = 3 if (actor in ("mixed", "Thermal") and rng.random() < 0.2) else 2
         maxNn = (30 if tier == "quick" else 60) if dim == 2 else 40
@@ -162,6 +165,20 @@ class AsmWorld(World):
         from EasyFEA.Simulations import _simu as _simu_mod
 
         self.alloc = seams.AllocSeam(ctx, _simu_mod)
+        if cfg["actor"] == "large":
+            from .asm_large import LargeAsm
+
+            try:
+                self.large = LargeAsm(cfg, ctx)
+            except BaseException:
+                self.close()
+                raise
+            self.gen_op = self.large.gen_op
+            self.apply = self.large.apply
+            self.observe = self.large.observe
+            self.abstract_state = self.large.abstract_state
+            self.finish = self.large.finish
+            return
         lib = meshlib.library()
         self.raws = [lib[n] for n in cfg["meshes"]]
         self.actor = cfg["actor"]
